@@ -504,6 +504,11 @@ func genInt(r *rng.R, f wfield, realistic bool) *big.Int {
 	}
 }
 
+var floatItemStrs = []string{"1.25", "2.000001", "2.000009", "0.12345", "1.00004", "1.000049", "3.14159", "-0.00001", "0.00005", "NaN", "abc", "0", "-0",
+	"-0.000001", "1e3", "Inf", ".5", "1.", "0x1p-2", "1e400", "7",
+	"1727800000000.5", "1000000000000000.25", "-1727800000000.5", "123456789012.123456", "4503599627370497.5", "1.9e303", "-1.9e303", "1e308",
+	"0.000155", "2.675", "1.005", "0.000015", "1.000005", "-2.675", "-0.000155", "8.345675", "0.1234549999", "1.00001499999"}
+
 func genItems(r *rng.R) []witem {
 	n := r.Intn(5)
 	var out []witem
@@ -521,8 +526,10 @@ func genItems(r *rng.R) []witem {
 		case 2:
 			s = pickS(r, "true", "false", "maybe", "1", "0", "T", "F", "TRUE", "False", "t", "yes")
 		case 3:
-			s = pickS(r, "1.25", "2.000001", "2.000009", "0.12345", "1.00004", "1.000049", "3.14159", "-0.00001", "0.00005", "NaN", "abc", "0", "-0",
-				"-0.000001", "1e3", "Inf", ".5", "1.", "0x1p-2", "1e400", "7")
+			// incl. large magnitudes with a fractional part, values near the top of the float64 range,
+			// ties at the fifth decimal, negatives and -0: the key is ParseFloat(Sprintf("%.5f", v)),
+			// i.e. the exact decimal rounding of the binary value, not round(v*1e5)/1e5
+			s = floatItemStrs[r.Intn(len(floatItemStrs))]
 		default:
 			s = "z"
 		}
@@ -818,7 +825,31 @@ func fixedWire(id int) wcase {
 
 var moduleNames = []string{"flow", "system", "circuitbreaker", "hotspot", "isolation"}
 
+// fixedFloatItems: one hotspot rule whose specific items are every float string of the pool
+// (model-encoded, so it is also delivered to a real handler), on every run
+const fixedFloatID = fixedBase + 100
+
+// id fixedFloatID: the strings inside the model's byte subset (compared in Coq as well);
+// id fixedFloatID+1: those with a three-digit exponent (monitor only)
+func fixedFloatItems(id int) wcase {
+	b := varyBases[11] // hotspot qps-reject
+	rule := b.rule()
+	var items []witem
+	for i, s := range floatItemStrs {
+		if inSubset([]byte(s)) == (id == fixedFloatID) {
+			items = append(items, witem{Kind: 3, Str: s, Thr: int64(i + 1)})
+		}
+	}
+	rule[len(rule)-1] = wval{Items: items}
+	rs := []wrule{rule}
+	return wcase{ID: id, Mod: 3, Module: moduleNames[3], Stream: "B-model-encode", Variant: "every-float-item-string",
+		Payload: modelEncode(3, rs), Expect: "rules", Rules: rs, Real: true, encOf: true}
+}
+
 func genWire(r *rng.R, id int) wcase {
+	if id == fixedFloatID || id == fixedFloatID+1 {
+		return fixedFloatItems(id)
+	}
 	if id >= fixedBase && id < fixedBase+5*len(fixedDocs) {
 		return fixedWire(id)
 	}
@@ -1315,6 +1346,8 @@ func runWire(a cli.Args, root *rng.R, rep *emit.Report, sh *emit.Shards, only in
 	for i := 0; i < 5*len(fixedDocs); i++ {
 		runOne(fixedBase+i, !a.Search)
 	}
+	runOne(fixedFloatID, !a.Search)
+	runOne(fixedFloatID+1, !a.Search)
 	// the Go wire structs' json tags and field types against the model's schemas
 	if sh != nil {
 		types := []reflect.Type{reflect.TypeOf(flow.Rule{}), reflect.TypeOf(system.Rule{}), reflect.TypeOf(cb.Rule{}),
